@@ -5,10 +5,19 @@ from ..observe import run as brun
 
 PID = 'C15'
 OPS = ('add', 'sub', 'mul', 'div')
-try:
-    sys.set_int_max_str_digits(0)
-except Exception:
-    pass
+
+
+class unlimited(object):
+    """The reference needs int <-> str conversions of any size; the library call must see the
+    interpreter's default conversion limit (4300 digits), as a user's process would."""
+
+    def __enter__(self):
+        self.old = sys.get_int_max_str_digits()
+        sys.set_int_max_str_digits(0)
+
+    def __exit__(self, *a):
+        sys.set_int_max_str_digits(self.old)
+
 
 
 def expected(op, n, b):
@@ -33,8 +42,9 @@ def call(op, s, b):
 
 
 def check_one(r, op, s, b, n=None):
-    n = int(s) if n is None else n
-    e = expected(op, n, b)
+    with unlimited():
+        n = int(s) if n is None else n
+        e = expected(op, n, b)
     if e is None:
         return
     st, got, _ = call(op, s, b)
@@ -173,7 +183,8 @@ def _w_long(chunk):
         if s in seen:
             continue
         seen.add(s)
-        n = int(s)
+        with unlimited():
+            n = int(s)
         for b in range(10):
             for op in OPS:
                 check_one(r, op, s, b, n)
@@ -188,7 +199,8 @@ def _w_huge(args):
     r = core.Res()
     d, n = args
     for s in (d * n, '1' + '0' * (n - 2) + d, '9' * (n - 1) + d):
-        v = int(s)
+        with unlimited():
+            v = int(s)
         for b in range(10):
             for op in OPS:
                 check_one(r, op, s, b, v)
